@@ -473,6 +473,17 @@ def run(tier: str, only=None) -> int:
                 if shape in ("bare", "nested"):
                     P = {"dir": d, "shape": shape, "end": end, "m": 200 if tier == "quick" else 1000, "explore": False}
                     harness.run_exploration(rep, PID, name + "/m-many", TransferScn, P, {"ps": 0, "free": 0}, max_execs=10, horizon=2000000)
+    for tr in ("socket", "via"):
+        name = f"alloc/0/{tr}"
+        if not only or only in name:
+            harness.run_exploration(rep, PID, name, AllocScn, dict(allocs[0], transport=tr), {"ps": 1, "free": 0}, max_execs=cap)
+        for end in ("remote-close", "cb-raises"):
+            name = f"cbcycle/{end}/{tr}"
+            if not only or only in name:
+                harness.run_exploration(rep, PID, name, CallbackCycleScn, {"end": end, "m": 2, "transport": tr}, {"ps": 1, "free": 0}, max_execs=cap)
+        name = f"transfer/nested/{tr}"
+        if not only or only in name:
+            harness.run_exploration(rep, PID, name, TransferScn, {"dir": "to-worker", "shape": "nested", "end": "drop", "m": 2, "transport": tr}, {"ps": 1, "free": 0}, max_execs=cap)
     for who in ("init", "worker"):
         name = f"cycledrop/{who}"
         if only and only not in name:
